@@ -1458,6 +1458,51 @@ impl Sessions {
         self.set_global_group_data_ctr(value);
     }
 
+    /// Verification hook: [`Sessions::reserve_global_group_data_ctr`].
+    #[cfg(rs_matter_verif)]
+    pub fn verif_reserve_global_group_data_ctr<C: Crypto>(
+        &mut self,
+        crypto: C,
+    ) -> Result<(u32, Option<u32>), Error> {
+        self.reserve_global_group_data_ctr(crypto)
+    }
+
+    /// Verification hook: [`Sessions::unreserve_global_group_data_ctr`].
+    #[cfg(rs_matter_verif)]
+    pub fn verif_unreserve_global_group_data_ctr(&mut self, value: u32) {
+        self.unreserve_global_group_data_ctr(value)
+    }
+
+    /// Verification hook: [`Sessions::resume_global_group_data_ctr`].
+    #[cfg(rs_matter_verif)]
+    pub fn verif_resume_global_group_data_ctr(&mut self, start: u32) {
+        self.resume_global_group_data_ctr(start)
+    }
+
+    /// Verification hook: [`Sessions::get_or_init_global_group_data_ctr`].
+    #[cfg(rs_matter_verif)]
+    pub fn verif_get_or_init_global_group_data_ctr<C: Crypto>(
+        &mut self,
+        crypto: C,
+    ) -> Result<u32, Error> {
+        self.get_or_init_global_group_data_ctr(crypto)
+    }
+
+    /// Verification hook: `(global_group_data_ctr, group_data_ctr_boundary)`.
+    #[cfg(rs_matter_verif)]
+    pub fn verif_group_data_ctr_raw(&self) -> (u32, u32) {
+        (self.global_group_data_ctr, self.group_data_ctr_boundary)
+    }
+
+    /// Verification hook: put the two in-memory fields of the group data
+    /// counter into the state of [`Sessions::new`] (a power cycle of this part
+    /// of the state; the caller then runs [`Sessions::load_persist`]).
+    #[cfg(rs_matter_verif)]
+    pub fn verif_group_data_ctr_power_cycle(&mut self) {
+        self.global_group_data_ctr = 0;
+        self.group_data_ctr_boundary = 0;
+    }
+
     /// Get or create a TX group session for sending group data messages to
     /// `(fab_idx, group_id)`.
     ///
